@@ -11,6 +11,7 @@ import (
 	"verifharness/core"
 	"verifharness/gen"
 	"verifharness/model"
+	"verifharness/types"
 )
 
 // C10: re-used targets and instances never leak stale state.
@@ -149,7 +150,93 @@ func c10History(c *core.Ctx, idx, worker int, p *plenc.Plenc, cfg model.Cfg, nam
 	}
 }
 
+// c10DupKeys: one encoded map that names a key more than once (no encoder of plenc's writes that,
+// a merged or hand-built message can): entries are applied in order, into a nil, an empty and a
+// populated target map alike, as the reference decoder does.
+func c10DupKeys(c *core.Ctx, idx int) {
+	rec := c.Rec
+	r := c.Rand(idx)
+	cfg := instCfgs()[idx%4]
+	name := cfgName(cfg)
+	p := instNew(cfg)
+	T := reflect.TypeOf
+	for round := 0; round < 12; round++ {
+		kt := []reflect.Type{T(""), T(int32(0)), T(types.Key{}), T(uint64(0))}[r.IntN(4)]
+		vt := []reflect.Type{T(int64(0)), T(""), T(types.Leaf{}), T([]byte(nil)), T((*int32)(nil)), T(float64(0)), T(false), T([]int(nil))}[r.IntN(8)]
+		ht := reflect.StructOf([]reflect.StructField{{Name: "M", Type: reflect.MapOf(kt, vt), Tag: `plenc:"1"`}, {Name: "Z", Type: T(int8(0)), Tag: `plenc:"2"`}})
+		if cfg.Validate(ht, "") != "" {
+			continue
+		}
+		vg := &gen.VG{R: r, C: cfg, Budget: 12}
+		key := vg.Value(kt, "")
+		one := func(val reflect.Value) []byte {
+			h := reflect.New(ht).Elem()
+			m := reflect.MakeMap(ht.Field(0).Type)
+			m.SetMapIndex(key, val)
+			h.Field(0).Set(m)
+			return cfg.Encode(h)
+		}
+		var entries [][]byte
+		ok := true
+		n := 2 + r.IntN(3)
+		for i := 0; i < n && ok; i++ {
+			val := reflect.Zero(vt)
+			if r.IntN(2) == 0 {
+				val = vg.Value(vt, "")
+			}
+			e := one(val)
+			// tag of field 1 (counted form), a count of one, then the entry
+			if len(e) < 3 || e[0] != 0x0b || e[1] != 0x01 {
+				ok = false
+				break
+			}
+			entries = append(entries, e[2:])
+		}
+		if !ok {
+			continue
+		}
+		data := []byte{0x0b, byte(len(entries))}
+		for _, e := range entries {
+			data = append(data, e...)
+		}
+		data = append(data, 0x10, 0x02) // Z = 1
+		for _, shape := range []string{"nil map", "empty map", "map that holds the key"} {
+			prior := reflect.New(ht).Elem()
+			switch shape {
+			case "empty map":
+				prior.Field(0).Set(reflect.MakeMap(ht.Field(0).Type))
+			case "map that holds the key":
+				m := reflect.MakeMap(ht.Field(0).Type)
+				m.SetMapIndex(key, vg.Value(vt, ""))
+				prior.Field(0).Set(m)
+			}
+			got, want := reflect.New(ht), reflect.New(ht)
+			got.Elem().Set(model.DeepCopy(prior))
+			want.Elem().Set(model.DeepCopy(prior))
+			if err := cfg.Decode(want.Elem(), data); err != nil {
+				break // the reference decoder does not take this shape: nothing to compare with
+			}
+			err, pn := unmarshal(p, data, got.Interface())
+			rec.Eval(1)
+			if err != nil || pn != "" {
+				rec.Violation("merge", fmt.Sprintf("[%s] a map that names one key %d times is rejected (target: %s): %v %s\n  type %s\n  bytes %s", name, len(entries), shape, err, trunc1(pn), typeString(ht), hexHead(data)), nil)
+				return
+			}
+			if d := model.Diff(want.Elem(), got.Elem(), "$"); d != "" {
+				rec.Violation("merge", fmt.Sprintf("[%s] a map that names one key %d times: entries are not applied in order into a %s: %s\n  type %s\n  bytes %s\n  got  %s\n  want %s", name, len(entries), shape, d, typeString(ht), hexHead(data), model.Show(got.Elem()), model.Show(want.Elem())), nil)
+				return
+			}
+			rec.Count("duplicate_key_decodes", 1)
+			rec.NonTrivial(core.Hash64("dup", ht.String(), shape, fmt.Sprint(idx, round)))
+		}
+	}
+}
+
 func c10Case(c *core.Ctx, idx int) {
+	if idx%11 == 4 && c.Lane != "race" {
+		c10DupKeys(c, idx)
+		return
+	}
 	cfgs := instCfgs()
 	cfg := cfgs[idx%4]
 	p := instNew(cfg)
